@@ -1,7 +1,11 @@
 // Package drv contains one driver per specification module.
 package drv
 
-import "verifharness/hx"
+import (
+	"net"
+
+	"verifharness/hx"
+)
 
 // Args are the common driver arguments.
 type Args struct {
@@ -12,3 +16,11 @@ type Args struct {
 
 // Drivers maps driver names to their entry points.
 var Drivers = map[string]func(*Args){}
+
+func listen() net.Listener {
+	ln, err := net.Listen("tcp", "127.0.0.1:0")
+	if err != nil {
+		panic(err)
+	}
+	return ln
+}
